@@ -247,6 +247,9 @@ def run(chk, tier):
     chk.guard('C20.c', lambda: c20.rule_iteration(chk, prog, tier))
     chk.guard('C20.e', lambda: c20.rule_constructors(chk, prog, tier))
     chk.guard('C20.g', lambda: c20.rule_unsequenced(chk, prog, tier))
+    chk.guard('C20.h', lambda: c20.rule_key_lifetime(chk, prog, tier))
+    from props import c19
+    chk.guard('C19.s', lambda: c19.rule_released_arguments(chk, prog, tier))    # freed memory that is read again (a spelling printed in a diagnostic) holds what the allocator left: not the same text in every build
     chk.guard('C16.b', lambda: c16.rule_hash(chk, prog, tier))
     chk.guard('C01.a', lambda: c01.rule_binop(chk, prog, tier))
     from props import c05
